@@ -74,8 +74,142 @@ func (e *Engine) namesSnapshot() map[string][][2]string {
 			out[k] = e.localNames(fc.Fn)
 		}
 		out["params:"+e.ownKey(fc.Fn)] = e.paramNames(fc.Fn)
+		if fc.Fn.Pkg != nil {
+			k2 := "pkgobjs:" + fc.Fn.Pkg.Pkg.Path()
+			if _, ok := out[k2]; !ok {
+				out[k2] = pkgObjects(fc.Fn.Pkg.Pkg)
+			}
+		}
 	}
 	return out
+}
+
+// pkgObjects: package-level functions and constants with a description of what they are (signature / type and
+// exact value), for the tolerance to renamed private functions and constants.
+func pkgObjects(p *types.Package) [][2]string {
+	var out [][2]string
+	qual := func(q *types.Package) string { return q.Name() }
+	names := p.Scope().Names()
+	sort.Strings(names)
+	for _, n := range names {
+		switch o := p.Scope().Lookup(n).(type) {
+		case *types.Func:
+			sig := o.Type().(*types.Signature)
+			// parameter names are not part of the description
+			out = append(out, [2]string{n, "func " + types.TypeString(sig.Params(), qual) + " " + types.TypeString(sig.Results(), qual)})
+		case *types.Const:
+			out = append(out, [2]string{n, "const " + types.TypeString(o.Type(), qual) + " = " + o.Val().ExactString()})
+		}
+	}
+	for i := range out {
+		// drop parameter names from tuple strings: "(v float32, wp float32)" -> types only
+		out[i][1] = stripParamNames(out[i][1])
+	}
+	return out
+}
+
+func stripParamNames(s string) string {
+	// types.TypeString of a tuple prints "name type"; remove the names
+	var b strings.Builder
+	depth := 0
+	i := 0
+	for i < len(s) {
+		c := s[i]
+		if c == '(' || c == ',' {
+			b.WriteByte(c)
+			i++
+			if c == '(' {
+				depth++
+			}
+			for i < len(s) && s[i] == ' ' {
+				b.WriteByte(' ')
+				i++
+			}
+			// an identifier followed by a space and more text before , or ) is a parameter name
+			j := i
+			for j < len(s) && (s[j] == '_' || s[j] >= 'a' && s[j] <= 'z' || s[j] >= 'A' && s[j] <= 'Z' || s[j] >= '0' && s[j] <= '9') {
+				j++
+			}
+			if j > i && j < len(s) && s[j] == ' ' {
+				i = j + 1
+			}
+			continue
+		}
+		if c == ')' {
+			depth--
+		}
+		b.WriteByte(c)
+		i++
+	}
+	return b.String()
+}
+
+// oldKey: the snapshot key of a function, allowing for the function itself having been renamed.
+func (e *Engine) oldKey(fn *ssa.Function, key string) string {
+	if _, ok := e.nameSnap["params:"+key]; ok || fn.Pkg == nil || fn.Parent() != nil || fn.Signature.Recv() != nil {
+		return key
+	}
+	prefix := fn.Pkg.Pkg.Name() + "."
+	for k := range e.nameSnap {
+		if !strings.HasPrefix(k, "params:"+prefix) {
+			continue
+		}
+		old := strings.TrimPrefix(k, "params:"+prefix)
+		if strings.ContainsAny(old, ".$") {
+			continue
+		}
+		if e.renamedPkgObject(fn.Pkg.Pkg, old) == fn.Name() {
+			return prefix + old
+		}
+	}
+	return key
+}
+
+// renamedPkgObject: the current name of the package-level function or constant that was called `name` when the
+// contracts were written: common entries are set aside, and the name is resolved only if exactly one vanished and one
+// new object share its description.
+func (e *Engine) renamedPkgObject(p *types.Package, name string) string {
+	if e.nameSnap == nil {
+		e.loadNameSnapshot()
+	}
+	old := e.nameSnap["pkgobjs:"+p.Path()]
+	if len(old) == 0 {
+		return ""
+	}
+	cur := pkgObjects(p)
+	inCur := map[[2]string]bool{}
+	for _, c := range cur {
+		inCur[c] = true
+	}
+	inOld := map[[2]string]bool{}
+	for _, o := range old {
+		inOld[o] = true
+	}
+	desc := ""
+	for _, o := range old {
+		if o[0] == name && !inCur[o] {
+			desc = o[1]
+		}
+	}
+	if desc == "" {
+		return ""
+	}
+	nOld, nNew, cand := 0, 0, ""
+	for _, o := range old {
+		if !inCur[o] && o[1] == desc {
+			nOld++
+		}
+	}
+	for _, c := range cur {
+		if !inOld[c] && c[1] == desc {
+			nNew++
+			cand = c[0]
+		}
+	}
+	if nOld == 1 && nNew == 1 {
+		return cand
+	}
+	return ""
 }
 
 func runNames(repo string) int {
@@ -155,7 +289,7 @@ func (e *Engine) renamedLocal(fn *ssa.Function, name string) string {
 	if e.nameSnap == nil {
 		e.loadNameSnapshot()
 	}
-	if ps := e.nameSnap["params:"+e.ownKey(fn)]; len(ps) > 0 {
+	if ps := e.nameSnap["params:"+e.oldKey(fn, e.ownKey(fn))]; len(ps) > 0 {
 		cur := e.paramNames(fn)
 		if len(cur) == len(ps) {
 			same := true
@@ -176,7 +310,7 @@ func (e *Engine) renamedLocal(fn *ssa.Function, name string) string {
 			}
 		}
 	}
-	snap := e.nameSnap[e.topKey(fn)]
+	snap := e.nameSnap[e.oldKey(topLevel(fn), e.topKey(fn))]
 	cur := e.localNames(fn)
 	if len(snap) == 0 {
 		return ""
